@@ -556,7 +556,7 @@ impl VerifBox for BitswapBox {
             }
             [
                 "conn" | "disc" | "conndead" | "dialfail" | "view" | "subopen" | "subfail" | "plan" | "resp"
-                | "req" | "insub" | "inmsg" | "inbad" | "inbig" | "inclose" | "inreset",
+                | "req" | "insub" | "inmsg" | "inbad" | "inbig" | "inclose" | "inreset" | "inrest",
                 ..,
             ] => match self.proto.as_mut() {
                 Some(session) => self.prt.block_on(session.step(line)),
